@@ -234,6 +234,15 @@ class Emitter:
                 out.append(
                     f"(=> (and (= (* {en} {cx}) {sx}) (> {cx} 0.0) (< (- (* 0.5 {pi})) {xn}) (< {xn} (* 0.5 {pi}))) (= {ph} {xn}))"
                 )
+                # periodicity of tan: e = tan x  => atan e = x - k pi ;  e = -cot x = tan(x - pi/2) => atan e = x - pi/2 - k pi
+                for kk in (-2, -1, 0, 1, 2, 3):
+                    sh = f"(* {float(kk)} {pi})" if kk >= 0 else f"(- (* {float(-kk)} {pi}))"
+                    out.append(
+                        f"(=> (and (= (* {en} {cx}) {sx}) (not (= {cx} 0.0)) (< (- {sh} (* 0.5 {pi})) {xn}) (< {xn} (+ {sh} (* 0.5 {pi})))) (= {ph} (- {xn} {sh})))"
+                    )
+                    out.append(
+                        f"(=> (and (= (* {en} {sx}) (- {cx})) (not (= {sx} 0.0)) (< {sh} {xn}) (< {xn} (+ {sh} {pi}))) (= {ph} (- (- {xn} (* 0.5 {pi})) {sh})))"
+                    )
         for t, th, en in self.acos_nodes:
             out.append(f"(=> (= {en} 1.0) (= {th} 0.0))")
             out.append(f"(=> (= {th} 0.0) (= {en} 1.0))")
@@ -242,6 +251,21 @@ class Emitter:
             for x, (sx, cx, xn) in trig:
                 out.append(f"(=> (and (= {en} {cx}) (<= 0.0 {xn}) (<= {xn} {pi})) (= {th} {xn}))")
         for x, (s, c, xn) in trig:
+            for kk in (-1, 1, 2):  # sign table on further periods
+                lo = f"(* {float(2 * kk)} {pi})" if kk >= 0 else f"(- (* {float(-2 * kk)} {pi}))"
+                out.append(f"(=> (and (< {lo} {xn}) (< {xn} (+ {lo} {pi}))) (> {s} 0.0))")
+                out.append(f"(=> (and (< (+ {lo} {pi}) {xn}) (< {xn} (+ {lo} (* 2.0 {pi})))) (< {s} 0.0))")
+                out.append(f"(=> (and (< (- {lo} (* 0.5 {pi})) {xn}) (< {xn} (+ {lo} (* 0.5 {pi})))) (> {c} 0.0))")
+                out.append(f"(=> (and (< (+ {lo} (* 0.5 {pi})) {xn}) (< {xn} (+ {lo} (* 1.5 {pi})))) (< {c} 0.0))")
+                out.append(f"(=> (= {xn} {lo}) (and (= {s} 0.0) (= {c} 1.0)))")
+                out.append(f"(=> (= {xn} (+ {lo} {pi})) (and (= {s} 0.0) (= {c} (- 1.0))))")
+                out.append(f"(=> (= {xn} (+ {lo} (* 0.5 {pi}))) (and (= {s} 1.0) (= {c} 0.0)))")
+                out.append(f"(=> (= {xn} (+ {lo} (* 1.5 {pi}))) (and (= {s} (- 1.0)) (= {c} 0.0)))")
+            out.append(f"(=> (= {xn} (* 0.5 {pi})) (and (= {s} 1.0) (= {c} 0.0)))")
+            out.append(f"(=> (= {xn} (* 1.5 {pi})) (and (= {s} (- 1.0)) (= {c} 0.0)))")
+            out.append(f"(=> (= {xn} (- (* 0.5 {pi}))) (and (= {s} (- 1.0)) (= {c} 0.0)))")
+            out.append(f"(=> (and (< {pi} {xn}) (< {xn} (* 2.0 {pi}))) (< {s} 0.0))")
+            out.append(f"(=> (and (< (* 1.5 {pi}) {xn}) (< {xn} (* 2.5 {pi}))) (> {c} 0.0))")
             out.append(f"(=> (and (< 0.0 {xn}) (< {xn} {pi})) (> {s} 0.0))")
             out.append(f"(=> (and (< (- {pi}) {xn}) (< {xn} 0.0)) (< {s} 0.0))")
             out.append(f"(=> (and (< (- (* 0.5 {pi})) {xn}) (< {xn} (* 0.5 {pi}))) (> {c} 0.0))")
